@@ -579,7 +579,7 @@ def select__distinct_values(self: XPathFunction, context: ta.ContextType = None)
     def distinct_values(case_insensitive: bool = False) -> Iterator[AtomicType]:
         nan = False
         results: list[AtomicType] = []
-        for value in self[0].atomization(context):
+        for value in operand:
             if case_insensitive and isinstance(value, (str, bytes)):
                 value = value.casefold()
 
@@ -607,8 +607,12 @@ def select__distinct_values(self: XPathFunction, context: ta.ContextType = None)
     else:
         collation = self.get_argument(self.context or context, 1, required=True, cls=str)
 
+    # the operand is evaluated before and the results are delivered after holding the
+    # collation lock: a nested or lazily consumed collation call would otherwise deadlock
+    operand = list(self[0].atomization(context))
     with CollationManager(collation, self):
-        yield from distinct_values()
+        results = list(distinct_values())
+    yield from results
 
 
 @method(function('insert-before', nargs=3,
@@ -650,14 +654,17 @@ def select__index_of(self: XPathFunction, context: ta.ContextType = None) -> Ite
     if isinstance(value, UntypedAtomic):
         value = value.value  # xs:untypedAtomic values are compared as xs:string
 
+    operand = list(self[0].atomization(context))
+    positions = []
     with CollationManager(collation, self) as manager:
-        for pos, result in enumerate(self[0].atomization(context), start=1):
+        for pos, result in enumerate(operand, start=1):
             if isinstance(result, UntypedAtomic):
                 result = result.value
             if isinstance(result, bool) is not isinstance(value, bool):
                 continue  # xs:boolean is comparable only with xs:boolean
             if manager.eq(result, value):
-                yield pos
+                positions.append(pos)
+    yield from positions
 
 
 @method(function('remove', nargs=2, sequence_types=('item()*', 'xs:integer', 'item()*')))
